@@ -103,10 +103,13 @@ def enumerate_cases(tier, seed):
                                           controller=cn, eps=en, clip=clip, dt0=dt0, layout=lay, max_pieces=max_pieces,
                                           weight=len(profiles(max_pieces))))
                     for entry in ("terminal_values", "every_step"):
-                        cases.append(dict(id=f"profile/{entry}/{cn}/{en}/clip{int(clip)}/dt0_{dt0}",
-                                          group=f"p/{entry}/{cn}/{en}/{int(clip)}/{dt0}", mode="profile", entry=entry,
-                                          controller=cn, eps=en, clip=clip, dt0=dt0, layout=[], max_pieces=max_pieces,
-                                          weight=len(profiles(max_pieces))))
+                        # final time relative to the lattice of step ends: on it, eps/2 above it (a step end lands within eps *below*
+                        # the final time) and eps/2 below it (within eps above)
+                        for fin in ("on", "plus_half_eps", "minus_half_eps"):
+                            cases.append(dict(id=f"profile/{entry}/{cn}/{en}/clip{int(clip)}/dt0_{dt0}/final_{fin}",
+                                              group=f"p/{entry}/{cn}/{en}/{int(clip)}/{dt0}", mode="profile", entry=entry,
+                                              controller=cn, eps=en, clip=clip, dt0=dt0, layout=[], max_pieces=max_pieces, final=fin,
+                                              weight=len(profiles(max_pieces))))
     # ---- answers mode: one case = one configuration, DFS inside
     bound = 2 if quick else 3
     a_ctrl = ["I_default", "PI_default", "S_grow"] if quick else ["I_default", "I_dyadic_a", "PI_default", "PI_narrow", "S_grow", "S_shrinkgrow"]
@@ -266,7 +269,8 @@ def _signature(rec):
 def _save_at(case):
     eps = EPSS[case["eps"]]
     pts = layout_points(eps)
-    return [0.0] + [pts[i] for i in case["layout"]] + [1.0], eps
+    fin = {"on": 0.0, "plus_half_eps": eps / 2, "minus_half_eps": -eps / 2}[case.get("final", "on")]
+    return [0.0] + [pts[i] for i in case["layout"]] + [1.0 + fin], eps
 
 
 def run_cases(cases):
